@@ -349,6 +349,14 @@ impl Parser {
         });
 
         if let Some(collision) = &name_is_collision {
+            if collision.is_const() {
+                return Err(vec![new_err(
+                    name.unwrap().1,
+                    &input.user_data().get_source_file_name(),
+                    format!("cannot use `{}` as the counter of this loop, because it is const", collision.name()),
+                )]);
+            }
+
             if !collision.ty().unwrap().eq_complex(
                 &step_output_type,
                 &TypecheckFlags::<&ClassType>::classless(),
